@@ -1,7 +1,9 @@
 #!/bin/bash
-# baseline evaluation of all seeds delivered by the sub-agents against the committed checks
+# evaluation of all delivered seeds against the committed quick checks (scratch worktrees, PDL_REPO override)
 cd "$(dirname "$0")"
-for spec in "C01 1 C01" "C01 2 C01" "C04 1 C04" "C04 2 C04" "C02 1 C02" "C02 2 C02" "C03 1 C03" "C03 2 C03" "C05 1 C05" "C05 2 C05" "C13 1 C13" "C13 2 C13"; do
+for spec in "C01 1 C01" "C01 2 C01" "C04 1 C04" "C04 2 C04" "C02 1 C02" "C02 2 C02" "C03 1 C03" "C03 2 C03" "C05 1 C05" "C05 2 C05" "C13 1 C13" "C13 2 C13" \
+            "C15 1 C15" "C15 2 C15" "C18 1 C18" "C18 2 C18" "C12 1 C12" "C12 2 C12" "C07 1 C07" "C07 2 C07" "C16 1 C16" "C16 2 C16" "C17 1 C17" "C17 2 C17" "C06 1 C06" "C06 2 C06"; do
   set -- $spec
+  [ -f /tmp/wt_$1/SEEDS/$2/patch.diff ] || { echo "=== $1-$2 not delivered yet"; continue; }
   ./tools_try_seed.sh /tmp/wt_$1 /tmp/wt_$1/SEEDS/$2 $3
 done
